@@ -368,6 +368,34 @@ fn record(ctx: &Ctx) -> i32 {
                 raptorq::verif::verif_cache::clear();
             }
         }
+        // results must not depend on what a thread computed before: the common script once more on a single
+        // fresh thread in descending case order (block sizes falling from one Table-2 row into the previous
+        // one), default configuration; logged like any other configuration
+        if sname == "common" && only.is_none() {
+            let cfg = Config { isa: if cfg!(feature = "full") { 0 } else { 4 }, thr: 250, route: 0 };
+            if set_isa(cfg.isa) {
+                #[cfg(feature = "full")]
+                raptorq::verif::verif_cache::clear();
+                let mut lines: Vec<Vec<String>> = vec![vec![]; sc.len()];
+                std::thread::scope(|s| {
+                    s.spawn(|| {
+                        for i in (0..sc.len()).rev() {
+                            lines[i] = exec(&sc[i], cfg);
+                        }
+                    });
+                });
+                let mut text = String::new();
+                for l in &lines {
+                    for s in l {
+                        text.push_str(s);
+                        text.push('\n');
+                        n_ops += 1;
+                    }
+                }
+                std::fs::write(dir.join(format!("{}+descending_single_thread.{}.log", cfg.name(), sname)), text).expect("write log");
+                n_cfg += 1;
+            }
+        }
         ctx.sample(|| J::obj(vec![("script", J::s(sname)), ("cases", J::i(sc.len())), ("first_case", J::s(sc.first().map(|c| format!("K={} T={} arrivals={:?}", c.K, c.T, &c.arrivals[..c.arrivals.len().min(12)])).unwrap_or_default()))]));
     }
     set_isa(if cfg!(feature = "full") { 0 } else { 4 });
@@ -455,7 +483,7 @@ fn compare(ctx: &Ctx) -> i32 {
         ctx.floor("event_logs", n_logs as u64, 30);
     }
     ctx.finish(
-        "one deterministic case script (K in 1..40, 100, 126, 127, 249, 250, 251, 300; T over residues mod 64; packets for first/random/top/overflow-sensitive ESIs; packet-by-packet decode of an arrival sequence with 0-2 overhead and a duplicate; one-shot block decode with overhead >= H) is executed by every configuration = build {release, checked (debug assertions + overflow checks), no_std} x ISA {native dispatch, AVX-512, AVX2, SSSE3, portable via the cap hook; no_std: portable} x sparse threshold {0,250,inf} on both encoder and decoder x plan route {new (cached / direct in no_std), explicit plan, unplanned}; release additionally runs a script with K in 477..2195 (3000) on all three thresholds (dense vs sparse with several words of dense columns per row) and one with K up to 10000 (20000) on the sparse thresholds; a panic on a valid input is reported even when every configuration panics alike; each configuration logs `case op digest` and the offline checker requires all logs of a script to be line-for-line equal. non-trivial = a (case, op) line whose digest was produced by at least two configurations; distinct by (script, line)",
+        "one deterministic case script (K in 1..40, 100, 126, 127, 249, 250, 251, 300; T over residues mod 64; packets for first/random/top/overflow-sensitive ESIs; packet-by-packet decode of an arrival sequence with 0-2 overhead and a duplicate; one-shot block decode with overhead >= H) is executed by every configuration = build {release, checked (debug assertions + overflow checks), no_std} x ISA {native dispatch, AVX-512, AVX2, SSSE3, portable via the cap hook; no_std: portable} x sparse threshold {0,250,inf} on both encoder and decoder x plan route {new (cached / direct in no_std), explicit plan, unplanned}; release additionally runs a script with K in 477..2195 (3000) on all three thresholds (dense vs sparse with several words of dense columns per row) and one with K up to 10000 (20000) on the sparse thresholds; a panic on a valid input is reported even when every configuration panics alike; every build also runs the common script once on a single fresh thread in descending case order (history independence); each configuration logs `case op digest` and the offline checker requires all logs of a script to be line-for-line equal. non-trivial = a (case, op) line whose digest was produced by at least two configurations; distinct by (script, line)",
         &["NEON kernels cannot run on this x86-64 host", "serde/python features are not part of the property"],
         vec![],
     )
